@@ -142,6 +142,24 @@ Theorem C10_scan_least : forall l lo m, least_ge l lo = Some m ->
 Proof. exact least_ge_some. Qed.
 Print Assumptions C10_scan_least.
 
+(* Progress: in every reachable state, at every ledger (any number of Advance calls later), the owner of
+   an existing token can transfer it (the receiver's balance not being at the u32 limit) and burn it:
+   no index entry, marker, flag or counter the call needs is ever missing - all flavours. *)
+Theorem C10_owner_can_transfer : forall fl c now0 cs auths from to id,
+  fresh_run fl c (init now0) cs = true ->
+  let s := run fl c (init now0) cs in
+  owner_of fl c s id = Some from -> In from auths -> balance s to + 1 <= MAXU32N ->
+  exists s', exec fl c s (Transfer auths from to id) = Ok (s', None).
+Proof. exact owner_can_transfer. Qed.
+Print Assumptions C10_owner_can_transfer.
+Theorem C10_owner_can_burn : forall fl c now0 cs auths from id,
+  fresh_run fl c (init now0) cs = true ->
+  let s := run fl c (init now0) cs in
+  owner_of fl c s id = Some from -> In from auths ->
+  exists s', exec fl c s (Burn auths from id) = Ok (s', None).
+Proof. exact owner_can_burn. Qed.
+Print Assumptions C10_owner_can_burn.
+
 (* ---------- bit level of the consecutive ownership buckets (Model/NftBits.v) ----------
    W = bits per item (u32::BITS), I = items per bucket; a bucket is a vector of I words, bit
    (W-1-p) of word k stands for position k*W + p.  [least_in P lo hi r]: r is the least position in
@@ -258,4 +276,52 @@ Example C10_bits_example :
              /\ map (fun i => scan_bits b bs i 3300) [3200; 3201] = [Some 3200; None]
   | Fail => False
   end.
+Proof. vm_compute. repeat split. Qed.
+
+(* persistence: nothing but a call may change the state.  After a long ledger gap (one Advance) an owner
+   that disappeared, a balance that went to 0, a burnt token that came back, an enumeration entry that
+   vanished, or a getter that trapped (reported by the harness as the impossible value 2^32) are rejected *)
+Example C10_monitor_rejects_lapsed_state :
+  let c := Build_cfg (Build_hostcfg 1 6312000) 3200 32000 in
+  let ob nx own bal := mkObs nx own bal [] [] 0 [] [] in
+  monitor (mkTrace FBase c 10 true
+    [(MintSeq 0, Ok (Some 0), ob 1 [(0, Some 0); (1, None)] [(0, 1)]);
+     (Advance 600000, Ok None, ob 1 [(0, None); (1, None)] [(0, 1)])]) = 2 /\
+  monitor (mkTrace FBase c 10 true
+    [(MintSeq 0, Ok (Some 0), ob 1 [(0, Some 0); (1, None)] [(0, 1)]);
+     (Advance 4000000, Ok None, ob 1 [(0, Some 0); (1, None)] [(0, 0)])]) = 2 /\
+  monitor (mkTrace FBase c 10 true
+    [(MintSeq 0, Ok (Some 0), ob 1 [(0, Some 0); (1, None)] [(0, 1)]);
+     (Advance 20000, Ok None, ob 1 [(0, Some 0); (1, None)] [(0, 4294967296)])]) = 2 /\
+  monitor (mkTrace FBase c 10 true
+    [(MintSeq 0, Ok (Some 0), ob 1 [(0, Some 0); (1, None)] [(0, 1)]);
+     (Advance 17281, Ok None, ob 4294967296 [(0, Some 0); (1, None)] [(0, 1)])]) = 2 /\
+  monitor (mkTrace FCons c 10 true
+    [(BatchMint 0 3, Ok (Some 2), ob 3 [(0, Some 0); (1, Some 0); (2, Some 0); (3, None)] [(0, 3)]);
+     (Burn [0] 0 1, Ok None, ob 3 [(0, Some 0); (1, None); (2, Some 0); (3, None)] [(0, 2)]);
+     (Advance 600000, Ok None, ob 3 [(0, Some 0); (1, Some 0); (2, Some 0); (3, None)] [(0, 2)])]) = 3 /\
+  monitor (mkTrace FEnum c 10 true
+    [(MintSeq 0, Ok (Some 0), mkObs 1 [(0, Some 0); (1, None)] [(0, 1)] [] [] 1 [Some 0; None; None] [(0, [Some 0; None; None])]);
+     (Advance 100, Ok None, mkObs 1 [(0, Some 0); (1, None)] [(0, 1)] [] [] 1 [None; None; None] [(0, [Some 0; None; None])])]) = 2 /\
+  monitor (mkTrace FEnum c 10 true
+    [(MintSeq 0, Ok (Some 0), mkObs 1 [(0, Some 0); (1, None)] [(0, 1)] [] [] 1 [Some 0; None; None] [(0, [Some 0; None; None])]);
+     (Advance 4000000, Ok None, mkObs 1 [(0, Some 0); (1, None)] [(0, 1)] [] [] 1 [Some 0; None; None] [(0, [Some 0; None; None])])]) = 0.
+Proof. vm_compute. repeat split. Qed.
+
+(* the monitor rejects a token that got stuck: the owner's authorised transfer / burn fails *)
+Example C10_monitor_rejects_stuck_token :
+  let c := Build_cfg (Build_hostcfg 1 6312000) 3200 32000 in
+  let ob nx own bal := mkObs nx own bal [] [] 0 [] [] in
+  monitor (mkTrace FBase c 10 true
+    [(MintSeq 0, Ok (Some 0), ob 1 [(0, Some 0); (1, None)] [(0, 1); (1, 0)]);
+     (Advance 600000, Ok None, ob 1 [(0, Some 0); (1, None)] [(0, 1); (1, 0)]);
+     (Transfer [0] 0 1 0, Fail, ob 1 [(0, Some 0); (1, None)] [(0, 1); (1, 0)])]) = 3 /\
+  monitor (mkTrace FBase c 10 true
+    [(MintSeq 0, Ok (Some 0), ob 1 [(0, Some 0); (1, None)] [(0, 1); (1, 0)]);
+     (Burn [0] 0 0, Fail, ob 1 [(0, Some 0); (1, None)] [(0, 1); (1, 0)])]) = 2 /\
+  (* ... but not a transfer that must fail: wrong owner named, or the owner's authorisation missing *)
+  monitor (mkTrace FBase c 10 true
+    [(MintSeq 0, Ok (Some 0), ob 1 [(0, Some 0); (1, None)] [(0, 1); (1, 0)]);
+     (Transfer [1] 1 0 0, Fail, ob 1 [(0, Some 0); (1, None)] [(0, 1); (1, 0)]);
+     (Transfer [1] 0 1 0, Fail, ob 1 [(0, Some 0); (1, None)] [(0, 1); (1, 0)])]) = 0.
 Proof. vm_compute. repeat split. Qed.
